@@ -10,6 +10,10 @@ use std::io::{Read, Seek, Write};
 use std::path::Path;
 
 const E57_NAMESPACE: &str = "http://www.astm.org/COMMIT/E57/2010-e57-v1.0";
+const RESERVED_NAMESPACES: [&str; 2] = [
+    "http://www.w3.org/XML/1998/namespace",
+    "http://www.w3.org/2000/xmlns/",
+];
 
 /// Main interface for creating and writing E57 files.
 pub struct E57Writer<T: Read + Write + Seek> {
@@ -95,6 +99,11 @@ impl<T: Write + Read + Seek> E57Writer<T> {
             Error::invalid(format!(
                 "An extension using the namespace {ns} is already registered"
             ))?
+        } else if RESERVED_NAMESPACES.contains(&extension.url.as_str()) {
+            // The namespaces of XML itself cannot be bound to any other prefix,
+            // XML parsers reject documents doing that.
+            let url = &extension.url;
+            Error::invalid(format!("The URL '{url}' is reserved by XML"))?
         } else if extension.url.is_empty()
             || extension.url == E57_NAMESPACE
             || self.extensions.iter().any(|e| e.url == extension.url)
